@@ -144,7 +144,7 @@ func (v *recValidator) Validate(i any) error {
 }
 
 func runC18(e *Env) {
-	e.Rule = "decision table: 9 methods x content types {form-urlencoded, multipart/form-data with boundary, application/json, text/json, application/xml, text/xml - each with and without '; charset=utf-8' - text/plain, application/yaml, application/octet-stream, application/form-data, empty}; every request carries DIFFERENT data in the query string and in the body (and a key that exists only in the query), so the bound value reveals the source. Round trip: values of representative structs (ints incl. negative/large, strings with unicode, separators, quotes, angle brackets, blanks, bools, []string, []int) encoded by independent encoders (url.Values.Encode, mime/multipart, encoding/json, encoding/xml) and bound back through binding.Auto, Context.Bind/AutoBind, ShouldBind(JSON|XML|Form|Query), BindJSON/BindXML/BindForm: deep equality. Malformed: random byte strings and truncations/mutations of valid bodies under every content type: error or success, never a panic. Sequences: histories of 3..8 binds through different binders (query, form, multipart, header, JSON, XML) on a struct whose field names differ per source, incl. bodies whose reader fails mid-way; every bind must behave as if it were the first one. Validation: a recording validator with a predicate, the stock validator with validate tags, and the validator disabled. Single-threaded (the validator is a package global). Non-trivial: a body-method request, a string with separators/unicode, a malformed body, or a validator decision; distinct by case. The decision table is repeated on requests on which Request.FormValue was called before; slices contain empty elements; a stock-validator mode with rules only on the element struct of a slice."
+	e.Rule = "decision table: 9 methods x content types {form-urlencoded, multipart/form-data with boundary, application/json, text/json, application/xml, text/xml - each with and without '; charset=utf-8' - text/plain, application/yaml, application/octet-stream, application/form-data, empty}; every request carries DIFFERENT data in the query string and in the body (and a key that exists only in the query), so the bound value reveals the source. Round trip: values of representative structs (ints incl. negative/large, strings with unicode, separators, quotes, angle brackets, blanks, bools, []string, []int) encoded by independent encoders (url.Values.Encode, mime/multipart, encoding/json, encoding/xml) and bound back through binding.Auto, Context.Bind/AutoBind, ShouldBind(JSON|XML|Form|Query), BindJSON/BindXML/BindForm: deep equality. Malformed: random byte strings and truncations/mutations of valid bodies under every content type: error or success, never a panic. Sequences: histories of 3..8 binds through different binders (query, form, multipart, header, JSON, XML) on a struct whose field names differ per source, incl. bodies whose reader fails mid-way; every bind must behave as if it were the first one. Validation: a recording validator with a predicate, the stock validator with validate tags, and the validator disabled. Single-threaded (the validator is a package global). Non-trivial: a body-method request, a string with separators/unicode, a malformed body, or a validator decision; distinct by case. The decision table is repeated on requests on which Request.FormValue was called before; slices contain empty elements; a stock-validator mode with rules only on the element struct of a slice; a quarter of the stock-validator binds use a **struct or *interface{*struct} target (success implies the struct is valid)."
 	e.Assumptions = []string{
 		"XML strings are restricted to characters XML can carry (no \\r); JSON strings are valid UTF-8",
 		"every bind uses a fresh request (binding the same parsed form twice is outside the statement)",
@@ -733,6 +733,28 @@ func runC18(e *Env) {
 			}
 		case "stock":
 			binding.ResetValidator()
+			if chance(t.R, 1, 4) {
+				// the target reaches the struct through a second indirection (a nil struct pointer the
+				// decoder allocates, or an interface holding the struct pointer): whatever the binder
+				// makes of it, a bind that succeeds has validated the struct
+				var gp *bindV
+				var target any = &gp
+				how := "**struct"
+				if chance(t.R, 1, 2) {
+					var boxed any = &got
+					target, how = &boxed, "*interface{*struct}"
+				}
+				var err error
+				if pv, panicked := catch(func() { err = binding.Auto(req, target) }); panicked {
+					t.Fail("bind-panic", "%s bind into a %s target panicked: %v", format, how, pv)
+					return
+				}
+				t.Count("validation.stock_indirect_target", 1)
+				if err == nil && !(age >= 1 && name != "") {
+					t.Fail("stock-validator-skipped", "%s bind of age=%d name=%q into a %s target succeeded although the struct violates its validate tags (required|min:1, required)", format, age, name, how)
+				}
+				return
+			}
 			err := binding.Auto(req, &got)
 			t.Count("validation.stock", 1)
 			valid := age >= 1 && name != ""
@@ -763,6 +785,7 @@ func runC18(e *Env) {
 	e.Require("malformed.rejected_with_error", 1000)
 	e.Require("validation.recording", 500)
 	e.Require("validation.stock", 300)
+	e.Require("validation.stock_indirect_target", 100)
 	e.Require("validation.disabled", 300)
 	e.Require("validation.empty_source", 200)
 	e.Require("sequences.header", 500)
